@@ -199,6 +199,21 @@ func Packet(r *rand.Rand, maxOpts int) (*dhcpv4.DHCPv4, *ref4.P4) {
 		e.Opts[code] = append([]byte{}, v...)
 	}
 	if maxOpts > 0 && r.IntN(8) == 0 {
+		// a PXE client/server: class identifier "PXEClient...", vendor-specific information (43) made of PXE tags
+		ci := []string{"PXEClient:Arch:00007:UNDI:003016", "PXEClient", "PXEClient:Arch:00000:UNDI:002001", "HTTPClient:Arch:00016:UNDI:003001"}[r.IntN(4)]
+		var v []byte
+		for k := 1 + r.IntN(5); k > 0; k-- {
+			tag := []byte{1, 2, 3, 6, 7, 8, 9, 10, 71, 128}[r.IntN(10)]
+			d := Bytes(r, 1+r.IntN(6))
+			v = append(append(v, tag, byte(len(d))), d...)
+		}
+		if r.IntN(2) == 0 {
+			v = append(v, 255)
+		}
+		p.Options[60], e.Opts[60] = []byte(ci), []byte(ci)
+		p.Options[43], e.Opts[43] = v, append([]byte{}, v...)
+	}
+	if maxOpts > 0 && r.IntN(8) == 0 {
 		// the classic PXE reply: the server name and boot file are given in the header fields AND as options 66/67
 		if p.ServerHostName != "" {
 			p.Options[66] = []byte(p.ServerHostName)
